@@ -306,6 +306,27 @@ func (e *Env) runBlock(o FanOpts, agg *Agg, start, count int) (int, error) {
 		syscall.Kill(-cmd.Process.Pid, syscall.SIGKILL)
 	})
 	defer timer.Stop()
+	// memory watchdog: the sandbox has no memory limit and RLIMIT_AS cannot be used with the race
+	// detector's shadow mappings, so the resident set of every worker is polled
+	memKilled := false
+	stopMem := make(chan struct{})
+	defer close(stopMem)
+	go func() {
+		t := time.NewTicker(500 * time.Millisecond)
+		defer t.Stop()
+		for {
+			select {
+			case <-stopMem:
+				return
+			case <-t.C:
+				if rssBytes(cmd.Process.Pid) > maxWorkerRSS {
+					memKilled = true
+					syscall.Kill(-cmd.Process.Pid, syscall.SIGKILL)
+					return
+				}
+			}
+		}
+	}()
 	sc := bufio.NewScanner(stdout)
 	sc.Buffer(make([]byte, 1<<20), 256<<20)
 	inProgress := -1
@@ -348,7 +369,7 @@ func (e *Env) runBlock(o FanOpts, agg *Agg, start, count int) (int, error) {
 		return completed, troublef("worker for %s exited with %d outside a unit (units %d..%d):\n%s", o.Prop, exit, start, start+count-1, tail(stderr.String(), 4000))
 	}
 	if o.OnDeath != nil {
-		if f := o.OnDeath(inProgress, exit, stderr.String(), killed); f != nil {
+		if f := o.OnDeath(inProgress, exit, stderr.String(), killed || memKilled); f != nil {
 			f.Run = inProgress
 			f.Variant = o.Variant
 			agg.mu.Lock()
@@ -358,6 +379,9 @@ func (e *Env) runBlock(o FanOpts, agg *Agg, start, count int) (int, error) {
 		}
 	}
 	what := fmt.Sprintf("exit status %d", exit)
+	if memKilled {
+		what = fmt.Sprintf("killed because its resident set exceeded %d MB", maxWorkerRSS>>20)
+	}
 	if killed {
 		what = fmt.Sprintf("killed by the %v watchdog (a task blocked outside the simulator, or the machine is overloaded)", o.BlockWall)
 	}
@@ -401,7 +425,25 @@ func (e *Env) RunReplay(variant, prop, file string, wall time.Duration, env []st
 		res.Killed = true
 		syscall.Kill(-cmd.Process.Pid, syscall.SIGKILL)
 	})
+	stopMem := make(chan struct{})
+	go func() {
+		t := time.NewTicker(500 * time.Millisecond)
+		defer t.Stop()
+		for {
+			select {
+			case <-stopMem:
+				return
+			case <-t.C:
+				if rssBytes(cmd.Process.Pid) > maxWorkerRSS {
+					res.Killed = true
+					syscall.Kill(-cmd.Process.Pid, syscall.SIGKILL)
+					return
+				}
+			}
+		}
+	}()
 	err := cmd.Wait()
+	close(stopMem)
 	timer.Stop()
 	if err != nil {
 		res.Exit = -1
@@ -445,3 +487,16 @@ func Seq(n int) []int {
 }
 
 func mkdir(p string) { os.MkdirAll(filepath.Dir(p), 0o755) }
+
+// maxWorkerRSS is the resident-set limit of one worker process.
+const maxWorkerRSS = 6 << 30
+
+func rssBytes(pid int) int64 {
+	b, err := os.ReadFile(fmt.Sprintf("/proc/%d/statm", pid))
+	if err != nil {
+		return 0
+	}
+	var size, rss int64
+	fmt.Sscanf(string(b), "%d %d", &size, &rss)
+	return rss * int64(os.Getpagesize())
+}
